@@ -83,10 +83,11 @@ def build_all(fuzzing=False):
     with Lock():
         if not os.path.exists(HARNESS + "/Cargo.lock"):
             sh(f"cp /repo/Cargo.lock {HARNESS}/Cargo.lock")
+        # the harness first: the translator falls back on the implementation's behaviour when a literal is not in the source
+        status["harness"], status["harness_out"] = build_harness(False)
         status["gen"], status["gen_out"] = gen_tables()
         status["coq"], status["coq_out"] = build_coq()
         status["driver"], status["driver_out"] = build_driver()
-        status["harness"], status["harness_out"] = build_harness(False)
         if fuzzing:
             status["harness_fuzzing"], _ = build_harness(True)
     return status
